@@ -151,4 +151,49 @@ def Gslb.norm (g : Gslb) : Gslb := { g with avail := if g.single then g.avail el
 /-- a whole reload history applied to a state -/
 def gslbHistory (g : Gslb) (hist : List (List Sub)) : Gslb := hist.foldl gslbReload g
 
+/-! ## SLB: backend list of one sub-cluster, session-sticky selection (bfe_balance/bal_slb/bal_rr.go)
+
+  `BalanceRR.Init` keeps the backends in file order, `Update` keeps the surviving backends in their CURRENT order
+  (which a previous sticky request may have sorted), appends the new ones in Go-map order and sets `sorted = false`;
+  `stickyBalance` sorts the list by "addr:port" when `sorted` is false, then walks the available backends with
+  weight > 0 using `GetHash(key, totalWeight)`.  A backend is a `Sub` (name = "addr:port", weight = the internal weight,
+  i.e. 100 × the configured one: BackendRR.Init / UpdateWeight); all backends are
+  available in this model (no health checker runs in the harness). -/
+
+structure Slb where
+  backends : List Sub
+  sorted : Bool
+  deriving Repr, DecidableEq
+
+def slbInit (conf : List Sub) : Slb := { backends := conf, sorted := false }
+
+/-- `BalanceRR.Update`; `conf` in the order in which Go ranged over `confMap` (only the order of NEW backends matters) -/
+def slbUpdate (s : Slb) (conf : List Sub) : Slb :=
+  let kept := s.backends.filterMap fun b => (confWeight conf b.name).map fun w => { b with weight := w }
+  let fresh := conf.filter fun c => !(s.backends.any fun b => b.name == c.name)
+  { backends := kept ++ fresh, sorted := false }
+
+/-- `ensureSortedUnlocked` -/
+def slbEnsureSorted (s : Slb) : Slb :=
+  if s.sorted then s else { backends := s.backends.mergeSort subLe, sorted := true }
+
+def stickyWalk : List Sub → Int → Option String
+  | [], _ => none
+  | b :: rest, v => if v - b.weight < 0 then some b.name else stickyWalk rest (v - b.weight)
+
+/-- `stickyBalance` with `GetHash(key, totalWeight) = h`: (selected backend, new state) -/
+def slbSticky (s : Slb) (h : Int) : Option String × Slb :=
+  let s' := slbEnsureSorted s
+  (stickyWalk (s'.backends.filter fun b => b.weight > 0) h, s')
+
+inductive SlbOp where
+  | update (conf : List Sub)
+  | sticky (h : Int)
+
+def slbStep (s : Slb) : SlbOp → Slb
+  | .update conf => slbUpdate s conf
+  | .sticky h => (slbSticky s h).2
+
+def slbRun (s : Slb) (ops : List SlbOp) : Slb := ops.foldl slbStep s
+
 end BfeVerif.C14
